@@ -135,6 +135,7 @@ struct Case {
     removed: Vec<usize>,                // stable graphs only
     init: Vec<u64>,
     roots: Vec<usize>,                  // a root that is not an existing node may only come last (panics)
+    label: String,                      // generator description (printed instead of the edge list for big cases)
 }
 
 /// plain reference: nodes with a directed path to `root`, plus `root` (BFS over reversed edges)
@@ -163,6 +164,18 @@ fn acyclic(n: usize, edges: &[(usize, usize)], set: &[bool]) -> bool {
 
 fn sorted(mut v: Vec<usize>) -> Vec<usize> { v.sort(); v }
 
+/// peak length of a stack-based post-order DFS over the incoming lists (for the size histogram only)
+fn dfs_stack_peak(inc: &[Vec<usize>], root: usize, bound: usize) -> usize {
+    let (mut disc, mut fin) = (vec![false; bound], vec![false; bound]);
+    let mut stack = vec![root];
+    let mut peak = 1;
+    while let Some(&nx) = stack.last() {
+        if !disc[nx] { disc[nx] = true; for &m in &inc[nx] { if !disc[m] { stack.push(m); } } peak = peak.max(stack.len()); }
+        else { stack.pop(); fin[nx] = true; }
+    }
+    peak
+}
+
 fn run_case<C: Cont>(st: &mut Stream, proc_: &mut Processor<C>, c: &Case) {
     let ctx = Rc::new(Ctx::default());
     let mut g = C::build(c.n, &c.init, &ctx);
@@ -190,7 +203,11 @@ fn run_case<C: Cont>(st: &mut Stream, proc_: &mut Processor<C>, c: &Case) {
     for l in &outg { op.push(' '); op.push_str(&show_list(l)); }
     op.push(' '); op.push_str(&show_list64(&init));
     op.push(' '); op.push_str(&show_list(&c.roots));
-    let case_txt = format!("{} n={} edges={:?} dropped={:?} removed={:?} roots={:?}", C::NAME, c.n, c.edges, c.drop_edges, c.removed, c.roots);
+    let case_txt = if c.edges.len() <= 80 {
+        format!("{} n={} edges={:?} dropped={:?} removed={:?} roots={:?}", C::NAME, c.n, c.edges, c.drop_edges, c.removed, c.roots)
+    } else {
+        format!("{} {} n={} |edges|={} first edges={:?}… dropped={:?} removed={:?} roots={:?} (regenerate with the same seed/tier; the full request line is in the stream)", C::NAME, c.label, c.n, c.edges.len(), &c.edges[..12], c.drop_edges, c.removed, c.roots)
+    };
 
     // harness assumption about petgraph: the adjacency it reports is the edge multiset we built
     for v in 0..bound {
@@ -314,6 +331,16 @@ fn run_case<C: Cont>(st: &mut Stream, proc_: &mut Processor<C>, c: &Case) {
     if sorted(snks.clone()) != want_snk || snks.len() != want_snk.len() { st.oracle_fail("sinks() differs from the existing nodes without outgoing edges", &case_txt, &format!("{:?}", want_snk), &format!("{:?}", snks)); } else { st.oracle_ok(1); }
     for a in ctx.anomalies.borrow().iter() { st.oracle_fail(a, &case_txt, "", ""); }
 
+    if !c.label.is_empty() {
+        st.count(&format!("gen_{}", c.label.split(' ').next().unwrap_or("")));
+        // how far the traversal stack and the per-node input list were stretched (histogram only)
+        if let Some(&r) = c.roots.first() { if r < bound && live[r] {
+            let peak = dfs_stack_peak(&inc, r, bound);
+            st.count(if peak > 4096 { "dfs_stack_peak_gt_4096" } else if peak > 1024 { "dfs_stack_peak_gt_1024" } else if peak > 256 { "dfs_stack_peak_gt_256" } else { "dfs_stack_peak_le_256" });
+        } }
+        let maxin = inc.iter().map(|l| l.len()).max().unwrap_or(0);
+        st.count(if maxin > 900 { "max_indegree_gt_900" } else if maxin > 512 { "max_indegree_gt_512" } else if maxin > 256 { "max_indegree_gt_256" } else if maxin > 64 { "max_indegree_gt_64" } else { "max_indegree_le_64" });
+    }
     st.count(&format!("{}_nodes_{:02}", C::NAME, if bound <= 4 { bound } else { (bound + 9) / 10 * 10 }));
     if !c.removed.is_empty() { st.count("stable_with_vacant_slots"); }
     let evals = c.roots.len() as u64;
@@ -333,7 +360,7 @@ fn exhaustive<C: Cont>(st: &mut Stream, proc_: &mut Processor<C>, n: usize, maxm
         for root in 0..n {
             if removed.contains(&root) { continue; }
             let init: Vec<u64> = (0..n).map(|i| 100 + 7 * i as u64).collect();
-            let c = Case { n, edges: edges.clone(), drop_edges: vec![], removed: removed.clone(), init, roots: vec![root, root] };
+            let c = Case { n, edges: edges.clone(), drop_edges: vec![], removed: removed.clone(), init, roots: vec![root, root], label: String::new() };
             run_case(st, proc_, &c);
         }
     }
@@ -375,7 +402,84 @@ fn random_case<C: Cont>(rng: &mut Rng) -> Case {
         } else { roots.push(n + rng.usize_below(3)); }
     }
     let init: Vec<u64> = (0..n).map(|_| rng.below(4093)).collect();
-    Case { n, edges, drop_edges, removed, init, roots }
+    Case { n, edges, drop_edges, removed, init, roots, label: String::new() }
+}
+
+
+fn shuffle<T>(rng: &mut Rng, v: &mut Vec<T>) { for i in (1..v.len()).rev() { let j = rng.usize_below(i + 1); v.swap(i, j); } }
+
+/// LARGE DENSE graphs: complete DAGs / dense random DAGs / dense cyclic multigraphs, in several edge-insertion
+/// orders (petgraph yields the most recently inserted edge first, so the order decides whether the
+/// traversal dives into the best-connected neighbour first and the stack grows to ~n^2/2 entries)
+fn big_dense_case(rng: &mut Rng, kind: &str, n: usize, order: &str) -> Case {
+    let mut edges = Vec::new();
+    match kind {
+        "complete-dag" => { for a in 0..n { for b in a + 1..n { edges.push((a, b)); } } }
+        "dense-dag" => { for a in 0..n { for b in a + 1..n { if rng.chance(3, 5) { edges.push((a, b)); if rng.chance(1, 10) { edges.push((a, b)); } } } } }
+        _ => { for a in 0..n { for b in 0..n { if rng.chance(2, 5) { edges.push((a, b)); if rng.chance(1, 10) { edges.push((a, b)); } } } } }
+    }
+    match order {
+        "asc" => {}
+        "desc" => edges.reverse(),
+        "by-target-desc" => edges.sort_by(|x, y| (y.1, y.0).cmp(&(x.1, x.0))),
+        "by-target-asc" => edges.sort_by(|x, y| (x.1, y.0).cmp(&(y.1, x.0))),
+        _ => shuffle(rng, &mut edges),
+    }
+    let root = if kind == "dense-cyclic" { rng.usize_below(n) } else { n - 1 - rng.usize_below(2) };
+    let init: Vec<u64> = (0..n).map(|_| rng.below(4093)).collect();
+    Case { n, edges, drop_edges: vec![], removed: vec![], init, roots: vec![root, root], label: format!("big-{} order={}", kind, order) }
+}
+
+/// WIDE nodes: one hub with `k_inputs` incoming edges from `distinct` different sources (the surplus are
+/// parallel edges), a self-loop on the hub, a few edges among the sources and a sink behind the hub
+fn wide_case(rng: &mut Rng, k_inputs: usize, distinct: usize) -> Case {
+    let n = distinct + 2;
+    let hub = rng.usize_below(n - 1);
+    let sink = n - 1;
+    let srcs: Vec<usize> = (0..n - 1).filter(|&i| i != hub).collect();
+    let mut edges = Vec::new();
+    for &s in &srcs { edges.push((s, hub)); }
+    for _ in distinct..k_inputs { edges.push((*rng.pick(&srcs), hub)); }
+    edges.push((hub, hub)); edges.push((hub, hub));
+    for _ in 0..distinct / 4 { let (a, b) = (*rng.pick(&srcs), *rng.pick(&srcs)); if a < b { edges.push((a, b)); } }
+    edges.push((hub, sink));
+    shuffle(rng, &mut edges);
+    let init: Vec<u64> = (0..n).map(|_| rng.below(4093)).collect();
+    Case { n, edges, drop_edges: vec![], removed: vec![], init, roots: vec![hub, hub, sink], label: format!("wide inputs={} distinct={}", k_inputs, distinct) }
+}
+
+/// the big cases run on FRESH processors created with a small or a large `with_capacity`
+fn run_big<C: Cont>(st: &mut Stream, c: &Case, cap: usize) where C::Map: Default {
+    let mut p: Processor<C> = Processor::with_capacity(cap);
+    st.count(&format!("fresh_processor_capacity_{}", if cap <= 8 { "small" } else { "large" }));
+    run_case(st, &mut p, c);
+}
+
+fn big_cases(st: &mut Stream, rng: &mut Rng, thorough: bool) {
+    type G = Graph<NodeData<Instr>, ()>;
+    type S = StableGraph<NodeData<Instr>, ()>;
+    // quick: two complete DAGs in the two extreme insertion orders, one dense DAG, one dense cyclic multigraph
+    let mut plan: Vec<(&str, usize, &str)> = vec![("complete-dag", 160, "desc"), ("complete-dag", 120, "asc"), ("dense-dag", 150, "by-target-desc"), ("dense-cyclic", 100, "shuffle")];
+    if thorough {
+        for kind in ["complete-dag", "dense-dag", "dense-cyclic"] { for order in ["asc", "desc", "by-target-desc", "by-target-asc", "shuffle", "shuffle"] {
+            plan.push((kind, 90 + rng.usize_below(111), order));
+        } }
+        plan.push(("complete-dag", 200, "desc"));
+    }
+    for (i, &(kind, n, order)) in plan.iter().enumerate() {
+        let c = big_dense_case(rng, kind, n, order);
+        let cap = if i % 2 == 0 { n } else { rng.usize_below(5) };
+        if i % 3 == 2 { run_big::<S>(st, &c, cap); } else { run_big::<G>(st, &c, cap); }
+    }
+    let mut wides: Vec<(usize, usize)> = vec![(300, 290), (700, 150), (1000, 400), (700, 700)];
+    if thorough { for _ in 0..24 { let k = 257 + rng.usize_below(1200); wides.push((k, 1 + rng.usize_below(k))); } wides.push((2000, 3)); }
+    for (i, &(k, d)) in wides.iter().enumerate() {
+        let c = wide_case(rng, k, d);
+        // small capacities (0..4), the node count, and more than the widest input list
+        for cap in [rng.usize_below(5), c.n, 2 * k] {
+            if i % 2 == 0 { run_big::<G>(st, &c, cap); } else { run_big::<S>(st, &c, cap); }
+        }
+    }
 }
 
 fn run(a: &Args) {
@@ -388,6 +492,15 @@ fn run(a: &Args) {
     // a few large graphs first so that the processor's visit maps are longer than most later graphs need
     for _ in 0..20 { let c = random_case::<Graph<NodeData<Instr>, ()>>(&mut rng); run_case(&mut st, &mut pg, &c); }
     for _ in 0..20 { let c = random_case::<StableGraph<NodeData<Instr>, ()>>(&mut rng); run_case(&mut st, &mut ps, &c); }
+    big_cases(&mut st, &mut rng, a.thorough());
+    // medium-wide hubs and dense graphs also go through the two long-lived, reused processors
+    for _ in 0..(if a.thorough() { 12 } else { 2 }) {
+        let k = 200 + rng.usize_below(500);
+        let d = 1 + rng.usize_below(k);
+        let c = wide_case(&mut rng, k, d); run_case(&mut st, &mut pg, &c);
+        let nn = 40 + rng.usize_below(50);
+        let c = big_dense_case(&mut rng, "dense-cyclic", nn, "shuffle"); run_case(&mut st, &mut ps, &c);
+    }
     for n in 1..=3 {
         exhaustive(&mut st, &mut pg, n, 2, false);
         exhaustive(&mut st, &mut ps, n, 2, false);
@@ -402,7 +515,7 @@ fn run(a: &Args) {
         if i % 2 == 0 { let c = random_case::<Graph<NodeData<Instr>, ()>>(&mut rng); run_case(&mut st, &mut pg, &c); }
         else { let c = random_case::<StableGraph<NodeData<Instr>, ()>>(&mut rng); run_case(&mut st, &mut ps, &c); }
     }
-    st.note("exhaustive part: every multigraph on 1..3 nodes with edge multiplicity <= 2 (self-loops included) x every output node, Graph and StableGraph, plus StableGraph with one node removed; thorough adds 4 nodes with multiplicity <= 1; the random part (<= 40 nodes) is sampled");
+    st.note("exhaustive part: every multigraph on 1..3 nodes with edge multiplicity <= 2 (self-loops included) x every output node, Graph and StableGraph, plus StableGraph with one node removed; thorough adds 4 nodes with multiplicity <= 1; the random part (<= 40 nodes) is sampled; plus LARGE DENSE graphs (complete / dense DAGs and dense cyclic multigraphs, 90..200 nodes, thousands of edges, several edge-insertion orders so that the traversal stack peaks beyond 4096 entries) and WIDE hubs (257..2000 incoming edges incl. parallel edges and a self-loop) on fresh processors created with small and large capacities");
     st.exhaustive = false;
     st.finish();
 }
